@@ -2,6 +2,7 @@ package main
 
 import (
 	"fmt"
+	"os"
 	"go/types"
 	"sort"
 	"strings"
@@ -83,6 +84,9 @@ func newUnivFor(p *Program, cs *ContractSet) *Univ {
 	return u
 }
 
+// coverPaths: number of return paths per function that get a reachability cover (all of them in thorough mode)
+var coverPaths = 8
+
 func VerifyFunction(p *Program, cs *ContractSet, key string, ct *Contract, maxPaths int) (rep *FuncReport) {
 	rep = &FuncReport{Key: key}
 	fn := p.FindFunc(key)
@@ -98,7 +102,7 @@ func VerifyFunction(p *Program, cs *ContractSet, key string, ct *Contract, maxPa
 	}
 	u := newUnivFor(p, cs)
 	ex := &Exec{prog: p, u: u, cs: cs, fn: fn, ct: ct, inlined: map[string]bool{}, assumed: map[string]bool{}, models: map[string]bool{},
-		callSeq: map[string]int{}, maxPaths: maxPaths, globFacts: map[string]bool{}, prune: true}
+		callSeq: map[string]int{}, maxPaths: maxPaths, globFacts: map[string]bool{}, prune: os.Getenv("GOVC_NOPRUNE") == ""}
 	defer func() {
 		if r := recover(); r != nil {
 			if ue, ok := r.(unsupportedErr); ok {
@@ -168,6 +172,10 @@ func VerifyFunction(p *Program, cs *ContractSet, key string, ct *Contract, maxPa
 	nret := 0
 	for _, oc := range outs {
 		nret++
+		// vacuity guard: the path condition of every return must not be refutable
+		if nret <= coverPaths {
+			ex.addCover("some-return-path-reachable", oc.st, "")
+		}
 		frX := &Frame{fn: fn, regs: fr0.regs, top: true, ct: ct}
 		env := ex.envFor(frX, oc.st)
 		// parameters in postconditions denote entry values unless pointer (pointee: current)
@@ -494,7 +502,11 @@ func SolveAll(obls []*Obligation, timeout time.Duration, needAll bool, workers i
 				if o.Expect != "sat" {
 					gv = o.Inputs
 				}
-				r := Solve(o.Decls+o.Query, gv, timeout, needAll)
+				to := timeout
+				if o.Expect == "sat" && to > 4*time.Second {
+					to = 4 * time.Second // covers only need "not refutable"
+				}
+				r := Solve(o.Decls+o.Query, gv, to, needAll && o.Expect != "sat")
 				o.Result = &r
 			}
 		}()
